@@ -63,7 +63,7 @@ class Kit:
         here = os.path.dirname(os.path.dirname(os.path.abspath(__file__)))
         if here not in sys.path:
             sys.path.insert(0, here)
-        for m in modules:
+        for m in (("base",) + tuple(x for x in modules if x != "base")):
             mod = importlib.import_module("contracts." + m)
             mod.register(self)
         return self
